@@ -352,7 +352,13 @@ func intersectionStableSorted(a0, a1, b0, b1 Point) (Point, bool) {
 	//         return pt, false
 	// }
 
-	xLen := x.Norm()
+	xLen2 := x.Norm2()
+	if xLen2 < 0x1p-1022 {
+		// If x.Norm2() is less than the minimum normalized value, xLen might lose
+		// precision (or be zero) and the result might fail to be unit length.
+		return pt, false
+	}
+	xLen := math.Sqrt(xLen2)
 	maxError := intersectionError
 	if err > (float64(maxError)-tErr)*xLen {
 		return pt, false
